@@ -1255,3 +1255,22 @@ CONTRACTS[PA + 'PauliPolynomial.__getitem__#mask'] = dict(
              'forall(k, 0, %s, result.cs[k] == self.cs[MaskIdx(item, len(item))[k]])' % _giM],
     modifies=[], returns=POLY,
 )
+
+# ------------------------------------------------------------------ C05 / C12: stabilizer_state(list) returns a valid state whenever it returns
+# Partial correctness (ValueError: anticommuting input - or a list whose projection does not give one new stabilizer per element, in
+# which case the sign assignment cannot be made).  On return: every pair of the given stabilizers commutes, the tableau is valid, the
+# rank is N - L (or the list has one element), the signs of the active rows are Hermitian.
+_ssg = 'stabilizers[0]'
+_sso = 'old(stabilizers)[0]'
+CONTRACTS[ST + 'stabilizer_state#list'] = dict(
+    params=[('stabilizers', ('varargs', [dict(PLIST, exact=True)]))],
+    requires=['cols(%s.gs) %% 2 == 0' % _ssg, 'rows(%s.gs) >= 1' % _ssg, 'len(%s.ps) == rows(%s.gs)' % (_ssg, _ssg), 'bits2(%s.gs)' % _ssg,
+              'forall(k, 0, rows(%s.gs), %s.ps[k] == 0 or %s.ps[k] == 2)' % (_ssg, _ssg, _ssg)],
+    may_raise=['ValueError'],
+    ensures=['inv_state(result.gs, result.ps, result.r, cols(%s.gs) // 2)' % _sso,
+             'rows(%s.gs) == 1 or result.r == cols(%s.gs) // 2 - rows(%s.gs)' % (_sso, _sso, _sso),
+             # the given signs are the signs of the ACTIVE rows, in order
+             'implies(result.r == cols(%s.gs) // 2 - rows(%s.gs), forall(k, 0, rows(%s.gs), result.ps[result.r + k] == %s.ps[k]))' % (_sso, _sso, _sso, _sso),
+             'forall(a, 0, rows(%s.gs), forall(b, 0, rows(%s.gs), AcqSum(%s.gs[a], %s.gs[b], cols(%s.gs) // 2) %% 2 == 0))' % ((_sso,) * 5)],
+    modifies=[], returns=STATE,
+)
